@@ -23,7 +23,8 @@ MANIFEST_ENTRY = {
         "window returns (refines_slice + corollaries never_outside_window, pos_clamped, eviction_invisible, "
         "cache_bounded); the hand-written model is tied to the code on every run by a differential "
         "correspondence check over seeded operation sequences, and an independent slice-stream oracle "
-        "evaluates the property text on the real class."),
+        "evaluates the property text on the real class."
+        " BufferedReader.seek is in addition translated from the source text into Lean on every run and proved equal to the model's seek (tie_seek)."),
     "level_note": (
         "Trusted: Lean kernel (+propext, Classical.choice, Quot.sound), the correspondence harness and "
         "compiled driver, io.BytesIO as the file, model of seek/read as drop/take. Window explicit and inside the file."),
